@@ -5,7 +5,22 @@ repo suite, run the checks, always revert).  Writes what was run and observed to
 prints one line per seed.  Exit 1 if an expected check stayed silent or the suite failed with the change."""
 import json, os, re, subprocess, sys, datetime
 V = os.path.dirname(os.path.dirname(os.path.abspath(__file__)))
-seeds = sys.argv[1:] or sorted(d for d in os.listdir(f"{V}/seeded") if os.path.isdir(f"{V}/seeded/{d}"))
+args = sys.argv[1:]
+OUT = None
+if args[:1] == ["--apply"]:
+    # merge results produced elsewhere (a background snapshot run) into the metas of this tree
+    res = json.load(open(args[1]))
+    for s, hv in res.items():
+        mp = f"{V}/seeded/{s}/meta.json"
+        if os.path.exists(mp):
+            meta = json.load(open(mp)); meta["harness_verification"] = hv
+            json.dump(meta, open(mp, "w"), indent=2); open(mp, "a").write("\n")
+    print(f"applied {len(res)} results"); sys.exit(0)
+if args[:1] == ["--out"]:
+    OUT = args[1]; args = args[2:]
+seeds = args or sorted(d for d in os.listdir(f"{V}/seeded") if os.path.isdir(f"{V}/seeded/{d}"))
+REPO = os.environ.get("O2O_REPO", "/repo")
+allres = {}
 bad = 0
 for s in seeds:
     mp = f"{V}/seeded/{s}/meta.json"
@@ -24,10 +39,13 @@ for s in seeds:
     meta["expected_checks"] = exp
     meta["harness_verification"] = {
         "ran": " ".join(["tools/try_seed.sh", f"seeded/{s}/patch.diff"] + exp),
-        "repo_head": subprocess.run(["git", "-C", "/repo", "rev-parse", "--short", "HEAD"], capture_output=True, text=True).stdout.strip(),
+        "repo_head": subprocess.run(["git", "-C", REPO, "rev-parse", "--short", "HEAD"], capture_output=True, text=True).stdout.strip(),
         "suite_with_change": suite, "checks": res, "caught_by": caught, "silent": missed,
     }
     json.dump(meta, open(mp, "w"), indent=2); open(mp, "a").write("\n")
+    allres[s] = meta["harness_verification"]
+    if OUT:
+        json.dump(allres, open(OUT, "w"), indent=1)
     print(f"{s}: suite={'ok' if ok_suite else 'FAILS'} caught_by={caught} silent={missed}", flush=True)
     if missed or not ok_suite: bad = 1
 sys.exit(bad)
